@@ -432,7 +432,14 @@ func (s *controlledSelector) HandleSuccessResponse(
 	pair.state = CandidatePairStateSucceeded
 	s.log.Tracef("Found valid candidate pair: %s", pair)
 	if pair.nominateOnBindingSuccess {
-		if selectedPair := s.agent.getSelectedPair(); selectedPair == nil ||
+		selectedPair := s.agent.getSelectedPair()
+		if value := pair.nominationValueOnBindingSuccess; value != nil {
+			// Deferred renomination: the nomination value decides, not the priority.
+			// It still wins only if no later nomination has been accepted meanwhile.
+			if selectedPair != pair && s.lastNomination != nil && *value == *s.lastNomination {
+				s.agent.setSelectedPair(pair)
+			}
+		} else if selectedPair == nil ||
 			(selectedPair != pair &&
 				(!s.agent.needsToCheckPriorityOnNominated() || selectedPair.priority() <= pair.priority())) {
 			s.agent.setSelectedPair(pair)
@@ -499,6 +506,7 @@ func (s *controlledSelector) HandleBindingRequest(message *stun.Message, local, 
 			// candidate pair state to Failed, and set the checklist state to
 			// Failed.
 			pair.nominateOnBindingSuccess = true
+			pair.nominationValueOnBindingSuccess = nominationValue
 		}
 	}
 
